@@ -248,6 +248,8 @@ def plan(prop, tier, seed):
         legs.append(lambda: obs_leg(8 if q else 16, 40 if q else 250, 40 if q else 60, REALISTIC, seed))
         if not q:
             legs.append(lambda: obs_leg(16, 250, 60, DECIMAL, seed + 7, tag="dec"))
+    if prop in ("C02", "C05", "C10", "C11", "C19"):
+        legs.append(lambda: lab_leg("LabLOT", 2, 2, REALISTIC, seed))
     skipadm = {"VERIF_SKIP_ADMISSIBLE": "1"}
     if prop in ("C02", "C03", "C10", "C11"):
         legs.append(lambda: lab_leg("LabCF", 1, 2, NANO, seed, env_extra=skipadm, tag="nano"))
